@@ -270,6 +270,22 @@ func c17Stream(cs *drv.Case, vals []cval, stream []byte, cut int, e error, withD
 		}
 		c17CheckPrev(cs)
 		c17Prev.err, c17Prev.src, c17Prev.text = ferr, e, ferr.Error()
+		// the caller tries again / goes on with the next values on the same reader: whatever fails now still fails
+		// because of that source error
+		// (only for fixed-size scalars: their read consumes nothing when it fails, so the retry asks for the same
+		// missing bytes; a string or header that failed half way leaves the reader inside the value)
+		if v.K >= kBool && v.K <= kDouble {
+			for j := 0; j < 3; j++ {
+				if again := streamErr(v, br); again != nil {
+					cs.C.Obs("later failures on a reader that had failed", 1)
+					if !c17Matches(again, e) {
+						cs.Fail("source-error-not-matchable", M{"kind": kindNames[v.K], "source_err": e.Error(), "call": "the same read tried again after it had failed"}, M{"value_index": i, "retry": j + 1, "cut": cut, "err": errString(again), "err_type": fmt.Sprintf("%T", again),
+							"message": "the same read, tried again on the same reader, no longer carries the source's error"})
+						break
+					}
+				}
+			}
+		}
 		return
 	}
 	if cut < len(stream) {
